@@ -364,7 +364,7 @@ def main(argv=None) -> int:
     level = getattr(mod, "LEVEL", "exploration")
     coverage = {
         "evaluations": tot["evaluations"],
-        "distinct_nontrivial": len(tot["digests"]),
+        "distinct_nontrivial": len(tot["digests"]) + int(tot["counters"].get("distinct_by_enumeration", 0)),
         "rule": rule,
         "samples": tot["samples"],
         "out_of_domain": tot["out_of_domain"],
@@ -422,7 +422,7 @@ def main(argv=None) -> int:
     # report
     print(
         f"[{prop}] tier={args.tier} seed={args.seed} evaluations={tot['evaluations']} "
-        f"distinct_nontrivial={len(tot['digests'])} shards={len(results)} wall={time.time() - t0:.1f}s"
+        f"distinct_nontrivial={len(tot['digests']) + int(tot['counters'].get('distinct_by_enumeration', 0))} shards={len(results)} wall={time.time() - t0:.1f}s"
     )
     for k in sorted(tot["gates"]):
         print(f"   class {k}: {tot['gates'][k]}")
